@@ -150,12 +150,12 @@ def run(chk):
         chk.run("C10.R3", f"{SPINN_MOD}:SPINN.eval_nn", cfg, go, construct="SPINN.eval_nn")
 
     # ---------------- R3b SPINN.__call__: the separable network is evaluated row by row on (t_i, x_i) and combined
-    for eq_type in ("statio_PDE", "nonstatio_PDE"):
-        for bare in (False, True):
-            cfg = {"eq_type": eq_type, "bare_nn_params": bare}
+    for eq_type, d_sp in (("statio_PDE", 2), ("nonstatio_PDE", 2), ("statio_PDE", 1), ("nonstatio_PDE", 1), ("statio_PDE", 3)):
+        for bare in ((False, True) if d_sp == 2 else (False,)):
+            cfg = {"eq_type": eq_type, "bare_nn_params": bare, "d_space": d_sp}
 
-            def go(eq_type=eq_type, bare=bare):
-                d_sp, r, m, B = 2, 2, 2, 2
+            def go(eq_type=eq_type, bare=bare, d_sp=d_sp):
+                r, m, B = 2, 2, 2
                 d = d_sp + (1 if eq_type == "nonstatio_PDE" else 0)
                 # the inner separable module is called as module(t, x): its parameter names are read from the repository
                 inner_call = w.find_function_node(SPINN_MOD, "_SPINN.__call__")
